@@ -87,3 +87,29 @@ let () =
       of_result (fun ((s, y), z) -> VT [VB s; VB y; VB z])
         (Model.c09_master_chain (vi p) (vi a) (vi b) (vi n) (vpoint g) (hm m) sha256 ripemd160 (vb seed) (vbool testnet) (vb path))
       | _ -> raise (Bad "arity"))
+;
+  (* wallet/hd.py derive_child / class HD *)
+  register "c09_derive_child" (function [is_str; x; i] ->
+      of_result (fun x -> VB x) (Model.c09_derive_child (vbool is_str) (vb x) (vi i)) | _ -> raise (Bad "arity"));
+  register "c09_derive_child_body" (function [p; a; b; n; g; m; x; i] ->
+      of_result (fun x -> VB x)
+        (Model.c09_derive_child_body (vi p) (vi a) (vi b) (vi n) (vpoint g) (hm m) sha256 ripemd160 (vb x) (vi i))
+      | _ -> raise (Bad "arity"));
+  (let of_hd ((((xprv, xpub), st), seed), mn) = VT [VB xprv; VB xpub; VI st; VB seed; VB mn] in
+   register "c09_hd_init" (function [p; a; b; n; g; m; cls; pass; fresh] ->
+      of_result of_hd
+        (Model.c09_hd_init (vi p) (vi a) (vi b) (vi n) (vpoint g) (hm m) sha256 pbkdf2_sha512 nfkd (vb cls) (vb pass) (vb fresh))
+      | _ -> raise (Bad "arity"));
+   register "c09_hd_from_mnemonic_then_new" (function [p; a; b; n; g; m; m1; p1; f1; p2; f2] ->
+      of_result of_hd
+        (Model.c09_hd_from_mnemonic_then_new (vi p) (vi a) (vi b) (vi n) (vpoint g) (hm m) sha256 pbkdf2_sha512 nfkd
+           (vb m1) (vb p1) (vb f1) (vb p2) (vb f2))
+      | _ -> raise (Bad "arity")));
+  register "c09_hd_get_root_keys" (function [p; a; b; n; g; m; k; c] ->
+      of_result (fun (x, y) -> VT [VB x; VB y])
+        (Model.c09_hd_get_root_keys (vi p) (vi a) (vi b) (vi n) (vpoint g) sha256 (vi k) (vb c)) | _ -> raise (Bad "arity"));
+  register "c09_hd_from_xkey" (function [x] ->
+      of_result (fun () -> VNone) (Model.c09_hd_from_xkey (vb x)) | _ -> raise (Bad "arity"));
+  register "c09_hd_get_xkeys_from_path" (function [k; c; path] ->
+      of_result (fun (x, y) -> VT [VB x; VB y]) (Model.c09_hd_get_xkeys_from_path (vi k) (vb c) (vb path))
+      | _ -> raise (Bad "arity"))
